@@ -5,6 +5,7 @@
 //	FMT <hexcfg> <hextext> <maxWidth> <overlap> <hexfontid> <numLines>
 //	COMPILE <hexcfg> <hexsrc>
 //	PARSE <hexcfg> <hexsrc>      (canonical dump of the AST, see astdump.go)
+//	CLI <hexcfg> <hexsrc>        (command line program vs library calls, see cli.go)
 //
 // Panics are recovered per case (PANIC), a case running longer than the watchdog limit is
 // reported as HANG.
@@ -207,6 +208,8 @@ func runCase(line string) (res string) {
 		return compileCase(f)
 	case len(f) == 3 && f[0] == "PARSE":
 		return parseCase(f)
+	case len(f) == 3 && f[0] == "CLI":
+		return cliCase(f)
 	}
 	return "BADLINE"
 }
